@@ -121,8 +121,13 @@ func newCompiler(
 	if constsCache == nil {
 		constsCache = make(map[Object]int)
 		for i := range opts.Constants {
-			switch opts.Constants[i].(type) {
-			case Int, Uint, String, Bool, Float, Char, *UndefinedType:
+			switch v := opts.Constants[i].(type) {
+			case Float:
+				// -0.0 is never cached, it is equal to 0.0 as a cache key.
+				if !(v == 0 && math.Signbit(float64(v))) {
+					constsCache[v] = i
+				}
+			case Int, Uint, String, Bool, Char, *UndefinedType:
 				constsCache[opts.Constants[i]] = i
 			}
 		}
